@@ -645,6 +645,25 @@ def socket_framing(ctx, o, msg):
            how='one send(fd, message, strlen(message), ...) on a SOCK_DGRAM socket')
 
 
+def _const_upper_bound(o, e, depth=0):
+    """a constant the value cannot exceed: a constant itself, strnlen(x, K), or a local every definition of which is one"""
+    n = strip(e)
+    if n is None or depth > 5:
+        return None
+    if n.get('v') is not None and n.k != 'DeclRefExpr':
+        return n['v']
+    if n.k == 'CallExpr' and n.get('callee') == 'strnlen' and len(n.ch) > 2:
+        return _const_upper_bound(o, n.ch[2], depth + 1)
+    d = decl_of(n)
+    if d is not None and d.get('kind') == 'var':
+        from engine.dataflow import def_exprs
+        defs = def_exprs(o, d['id'])
+        bs = [_const_upper_bound(o, x, depth + 1) for x in defs]
+        if defs and all(b is not None for b in bs):
+            return max(bs)
+    return None
+
+
 def _is_devlog_path(o, e, path, depth=0):
     """the socket the devlog record goes to: the literal "/dev/log", or something the configuration can set - the
     output's own argument, or a string field of the configuration record whose compiled-in default is "/dev/log" -
@@ -740,6 +759,8 @@ def devlog_framing(ctx, o, msg, path):
         binds = fmt.variadic_bindings(c) or []
         prec = [a for a, d, role in binds if role == 'prec']
         pv = strip(prec[0]).get('v') if prec else None
+        if pv is None and prec:
+            pv = _const_upper_bound(o, prec[0])     # a measured length: strnlen(ident, K)
         if pv is None:
             chk.ob('R4', 'no-truncation[%s]' % o.name, False, c.where(), o.name,
                    'the ident field has no constant precision bound, the prefix length is unbounded')
